@@ -163,15 +163,16 @@ class Solver(ABC):
                 raise ValueError("Must provide either problem instance or config")
             self.problem = instantiate(self.config.problem)
 
+        # Set up precision before any array is created, so that the arrays
+        # created below get the requested precision
+        self.jax_double_precision = self.config.jax_double_precision
+        if self.jax_double_precision:
+            jax.config.update("jax_enable_x64", True)
+
         # Store core attributes
         self.gamma = jnp.array(self.config.gamma)
         self.epsilon = self.config.epsilon
         self.max_batch_size = self.config.max_batch_size
-
-        # Set up precision
-        self.jax_double_precision = self.config.jax_double_precision
-        if self.jax_double_precision:
-            jax.config.update("jax_enable_x64", True)
 
         # Set up logging
         self.set_verbosity(self.config.verbose)
@@ -223,6 +224,9 @@ class Solver(ABC):
         )
 
         initial_values = self._unbatch_results(padded_batched_initial_values)
+        if self.jax_double_precision:
+            # The problem may have been created before 64-bit mode was enabled
+            initial_values = initial_values.astype(jnp.float64)
 
         return initial_values
 
